@@ -44,6 +44,15 @@ fn call(st: &mut State, entry: &str, input: &[u8], cmd: &Value) -> &'static str 
                 p.push(ro);
                 let _ = std::fs::create_dir_all(&p);
             }
+            if let Some(fd) = cmd["full_device"].as_str() {
+                // the target is a device without room: every write to it fails (ENOSPC)
+                let mut p = data.clone();
+                p.push(fd);
+                if let Some(parent) = p.parent() {
+                    let _ = std::fs::create_dir_all(parent);
+                }
+                let _ = std::os::unix::fs::symlink("/dev/full", &p);
+            }
             let mut pf = base.clone();
             pf.push("p.patch");
             std::fs::write(&pf, input).unwrap();
